@@ -30,6 +30,30 @@ prop('C05', engine='storesim', profiles={'quick': [('c05', 1600)], 'thorough': [
           'distinct = distinct scenario digest; non-trivial = at least one fault actually fired (crash reached its index, run fault raised, disk error injected)')
 
 
+prop('C01', engine='storesim', profiles={'quick': [('c01', 2400)], 'thorough': [('c01', 60000)]}, level='exploration',
+     nontrivial=lambda r: r['stats'].get('loads', 0) + r['stats'].get('mem_hits', 0) > 0 and r['stats'].get('runs', 0) > 0,
+     rule='seeded histories over one data directory: several roots/contexts/namespace mountings/renderings, requests in any order, forcing, '
+          'run failures, restarts with other hash seeds; every returned value compared with the provenance-bearing expected value; '
+          'non-trivial = at least one value was computed and at least one was served from memory or storage; distinct = scenario digest')
+prop('C02', engine='storesim', profiles={'quick': [('c02', 2400)], 'thorough': [('c02', 60000)]}, level='exploration',
+     nontrivial=lambda r: r['stats'].get('procs', 0) >= 2 and len(r['stats'].get('hs', [])) >= 2,
+     rule='the same root built under composed computation-preserving rewritings (file/in-memory, JSON/YAML, renamed/moved files, outer namespace, '
+          'permuted keys/tasks/uses, spelled defaults, other ignored values, config->context moves, other global_vars) in simulated processes with '
+          'different PYTHONHASHSEED; same computation descriptor must give the same storage key; non-trivial = >=2 processes with >=2 hash seeds')
+prop('C04', engine='storesim', profiles={'quick': [('c04', 2400)], 'thorough': [('c04', 60000)]}, level='exploration',
+     nontrivial=lambda r: r['stats'].get('loads', 0) + r['stats'].get('mem_hits', 0) > 0,
+     rule='fault-free, force-free histories of constructions (several roots, renderings, name mode in its own directory), requests, every kind of '
+          'inspection, restarts; observed run invocations vs model prediction; non-trivial = some request was served without running')
+prop('C06', engine='storesim', profiles={'quick': [('c06', 1600)], 'thorough': [('c06', 40000)]}, level='exploration',
+     nontrivial=lambda r: r['stats'].get('loads', 0) > 0,
+     rule='compute in one simulated process, load in another (other hash seed); canonical type-strict comparison of returned vs loaded vs expected; '
+          'audit-hook check that loads do not modify result files; non-trivial = at least one value loaded from storage')
+prop('C07', engine='storesim', profiles={'quick': [('c07', 2400)], 'thorough': [('c07', 60000)]}, level='exploration',
+     nontrivial=lambda r: r['stats'].get('forced_runs', 0) > 0,
+     rule='force-heavy histories: Task.force/Chain.force with all flag combinations on arbitrary task sets and store states, arbitrary later requests; '
+          'flags, has_data and run invocations vs model; non-trivial = at least one forced task actually re-ran')
+
+
 def get_engine(name):
     if name == 'storesim':
         from tcsim.storesim.engine import StoreEngine
